@@ -1,30 +1,101 @@
-"""E2: SMT obligations generated from the MIR of real functions (see mir2smt.py)."""
+"""E2: SMT obligations generated from the MIR of real functions (engine/mir2smt.py, run
+under the tooling venv's python so that the z3 bindings are available)."""
+import json
 import os
+import subprocess
 import time
 
-from . import kani_run
+from . import kani_run, shadow, native
 
 
 def run_query(q, crate, log_path, cap, log):
-    from . import mir2smt
     t0 = time.time()
     r = kani_run.Result()
     r.log = log_path
+    scratch = os.path.join(os.path.dirname(os.path.dirname(crate)), "smt-" + q.name)
+    os.makedirs(scratch, exist_ok=True)
+    cmd = ["python3-vt", os.path.join(shadow.VERIF, "engine", "mir2smt.py"), q.harness, crate, scratch, str(cap)]
     try:
-        mir2smt.run_obligation(q, crate, log_path, cap, r)
+        p = subprocess.run(cmd, stdout=subprocess.PIPE, stderr=subprocess.PIPE, text=True, timeout=cap * 40 + 120)
+        with open(log_path, "w") as fh:
+            fh.write("# cmd: %s\n" % " ".join(cmd))
+            fh.write(p.stdout)
+            fh.write("\n# stderr\n" + p.stderr[-4000:])
+        out = json.loads(p.stdout.strip().splitlines()[-1])
+        r.verdict = out["verdict"]
+        r.note = out.get("note", "")
+        qs = out.get("queries", [])
+        r.checks_total = len(qs)
+        r.solver_s = round(sum(x.get("z3_s", 0) + x.get("cvc5_s", 0) for x in qs), 1)
+        # sat twins of the hypotheses are the vacuity witnesses
+        wit = [x for x in qs if x["label"].endswith(".witness")]
+        r.covers = (sum(1 for x in wit if x["z3"] == "sat"), len(wit))
+        r.smt = out
+        if out.get("cex"):
+            r.failed = [("smt", json.dumps(out["cex"])[:300], q.harness)]
+    except subprocess.TimeoutExpired:
+        r.verdict = "TIMEOUT"
     except Exception as e:  # translator limits are inconclusive, never a pass
         r.verdict = "ERROR"
         r.note = "mir2smt: %s: %s" % (type(e).__name__, e)
     r.wall_s = time.time() - t0
-    log("  [smt] %-44s %-8s %6.1fs%s" % (q.name, r.verdict, r.wall_s, ("  " + r.note) if r.note else ""))
+    log("  [smt] %-46s %-8s %6.1fs%s" % (q.name, r.verdict, r.wall_s, ("  " + r.note) if r.note else ""))
     return r
 
 
 def replay(q, r, crate, root, log):
-    from . import mir2smt
-    return mir2smt.replay(q, r, crate, root, log)
+    """Native confirmation of an SMT counterexample through the public API."""
+    binary, out = native.build(root, crate)
+    if binary is None:
+        log("  native build failed: " + out[-300:])
+        return False, None
+    cex = (getattr(r, "smt", {}) or {}).get("cex") or {}
+    if q.harness == "roll_step":
+        # feed the window in age order followed by the new byte
+        idx = 0
+        for lab in (r.note or "").split():
+            pass
+        import re
+        m = re.search(r"idx(\d)", r.note or "")
+        idx = int(m.group(1)) if m else 0
+        win = [int(cex.get("w%d" % i, "0")) for i in range(7)]
+        age = [win[(idx + k) % 7] for k in range(7)]
+        ch = int(cex.get("ch", "0"))
+        rc, txt = native.run(binary, ["roll"] + [str(b) for b in age + [ch]])
+        rc2, txt2 = native.run(binary, ["roll"] + [str(b) for b in age])
+        ok = rc != 0 or rc2 != 0
+        detail = txt + txt2
+    elif q.harness == "lcs_step":
+        rc, txt = native.run(binary, ["ed-search", "5", "3"], timeout=1200)
+        ok = rc != 0
+        detail = txt
+    else:
+        return False, None
+    log("  native confirmation: " + detail.strip().replace("\n", " | ")[:300])
+    if not ok:
+        return False, None
+    outdir = os.path.join(shadow.VERIF, "replays", q.prop)
+    os.makedirs(outdir, exist_ok=True)
+    path = os.path.join(outdir, q.name + ".txt")
+    with open(path, "w") as fh:
+        fh.write("// verif-replay: engine=smt\n// verif-replay: property=%s\n// verif-replay: query=%s\n"
+                 "// verif-replay: obligation=%s\n" % (q.prop, q.name, q.harness))
+        fh.write("// solver counterexample: %s\n// native confirmation:\n%s\n" % (json.dumps(cex), detail))
+    return True, path
 
 
 def replay_file(path, hdr, text, root, log):
-    from . import mir2smt
-    return mir2smt.replay_file(path, hdr, text, root, log)
+    from . import tables, queries
+    crate = shadow.make_shadow(os.path.join(root, "src"))
+    q = next((x for x in queries.ALL if x.name == hdr.get("query")), None)
+    if q is None:
+        log("unknown query in replay file")
+        return 2
+    r = run_query(q, crate, os.path.join(root, "replay-smt.log"), 300, log)
+    if r.verdict == "FAIL":
+        ok, p = replay(q, r, crate, root, log)
+        if ok:
+            log("VIOLATION property=%s replay=%s" % (q.prop, path))
+            return 1
+    log("obligation %s: %s on the current tree" % (q.harness, r.verdict))
+    return 0 if r.verdict == "PASS" else 2
